@@ -4,6 +4,11 @@ import traceback
 from vf.rec import Rec
 
 
+# engines whose client side speaks HTTP/1.1 + RFC 6455 bytes to a real web
+# server (H: aiohttp, N: tornado)
+HTTPB = ('H', 'N')
+
+
 def make_sim(kind, **kw):
     if kind == 'T':
         from vf.simt import SimT
@@ -19,11 +24,21 @@ def make_sim(kind, **kw):
     kw.pop('ws_close_mode', None)
     kw.pop('ws_read_timeout', None)
     kw.pop('validate', None)
+    import os
+    if kind == 'H' and os.environ.get('VERIF_H_AS_N'):
+        kind = 'N'      # (survey switch: every aiohttp history on tornado)
+    if CURRENT['rec'] is not None and kind in HTTPB:
+        CURRENT['rec'].count('engine_' + {'H': 'aiohttp', 'N': 'tornado'}[kind])
     if kind == 'H':
         # the asyncio server behind the real aiohttp adapter and web server
         from vf.simh import SimH
         kw.pop('body_chunks', None)
         return SimH(**kw)
+    if kind == 'N':
+        # the asyncio server behind the real tornado adapter and web server
+        from vf.simn import SimN
+        kw.pop('body_chunks', None)
+        return SimN(**kw)
     return SimA(**kw)
 
 
